@@ -35,7 +35,7 @@ pub proof fn lemma_kv_ser_join(keys: Seq<tinystr::TinyAsciiStr<4>>, m: KvMap)
 
 /// what a key / value list of a well-formed keyword or tfield map looks like
 pub open spec fn kv_keys_ok(keys: Seq<tinystr::TinyAsciiStr<4>>, m: KvMap, mode: bool) -> bool {
-    &&& strictly_sorted(texts::<4>(keys))
+    &&& keys.no_duplicates()
     &&& forall|i: int| 0 <= i < keys.len() ==> m.contains_key(#[trigger] keys[i])
             && (if mode { is_ukey(text(keys[i])) } else { is_tkey(text(keys[i])) }) && lower(text(keys[i])) == text(keys[i])
             && vals_wf(m[keys[i]])
@@ -59,7 +59,7 @@ pub proof fn lemma_kv_toks_shape(keys: Seq<tinystr::TinyAsciiStr<4>>, m: KvMap, 
         let k = keys.last();
         let pre = kv_toks(keys.drop_last(), m);
         assert(kv_keys_ok(keys.drop_last(), m, mode)) by {
-            assert(texts::<4>(keys.drop_last()) =~= texts::<4>(keys).drop_last());
+            assert forall|i: int, j: int| 0 <= i < keys.drop_last().len() && 0 <= j < keys.drop_last().len() && i != j implies keys.drop_last()[i] != keys.drop_last()[j] by { assert(keys.drop_last()[i] == keys[i] && keys.drop_last()[j] == keys[j]); }
             assert forall|j: int| 0 <= j < keys.drop_last().len() implies m.contains_key(#[trigger] keys.drop_last()[j])
                 && (if mode { is_ukey(text(keys.drop_last()[j])) } else { is_tkey(text(keys.drop_last()[j])) }) && lower(text(keys.drop_last()[j])) == text(keys.drop_last()[j])
                 && vals_wf(m[keys.drop_last()[j]]) by { assert(keys.drop_last()[j] == keys[j]); }
@@ -156,7 +156,7 @@ pub proof fn lemma_kv_fold_region(t: Seq<Seq<u8>>, a0: int, a: int, keys: Seq<ti
         let pre = kv_toks(keys1, m);
         let p = a + pre.len();
         assert(kv_keys_ok(keys1, m, mode)) by {
-            assert(texts::<4>(keys1) =~= texts::<4>(keys).drop_last());
+            assert forall|i: int, j: int| 0 <= i < keys1.len() && 0 <= j < keys1.len() && i != j implies keys1[i] != keys1[j] by { assert(keys1[i] == keys[i] && keys1[j] == keys[j]); }
             assert forall|j: int| 0 <= j < keys1.len() implies m.contains_key(#[trigger] keys1[j])
                 && (if mode { is_ukey(text(keys1[j])) } else { is_tkey(text(keys1[j])) }) && lower(text(keys1[j])) == text(keys1[j])
                 && vals_wf(m[keys1[j]]) by { assert(keys1[j] == keys[j]); }
@@ -179,8 +179,7 @@ pub proof fn lemma_kv_fold_region(t: Seq<Seq<u8>>, a0: int, a: int, keys: Seq<ti
         assert(!keys1.contains(k)) by {
             if keys1.contains(k) {
                 let i = choose|i: int| 0 <= i < keys1.len() && keys1[i] == k;
-                assert(texts::<4>(keys)[i] == text(k) && texts::<4>(keys)[keys.len() - 1] == text(k));
-                assert(lex_lt(texts::<4>(keys)[i], texts::<4>(keys)[keys.len() - 1]));
+                assert(keys[i] == k && keys[keys.len() - 1] == k);
             }
         }
         assert(kv_restrict(keys1, m).insert(k, vals) =~= kv_restrict(keys, m)) by {
@@ -227,6 +226,11 @@ pub proof fn lemma_keys_ok_from_wf(keys: Seq<tinystr::TinyAsciiStr<4>>, m: KvMap
         assert(keys.contains(keys[i]));
         let k = keys[i];
         assert forall|j: int| 0 <= j < m[k].len() implies is_utype(#[trigger] m[k][j]) && lower(m[k][j]) == m[k][j] && m[k][j] != true_word() by {}
+    }
+    assert(keys.no_duplicates()) by {
+        assert forall|i: int, j: int| 0 <= i < keys.len() && 0 <= j < keys.len() && i != j implies keys[i] != keys[j] by {
+            if i < j { assert(lex_lt(texts::<4>(keys)[i], texts::<4>(keys)[j])); } else { assert(lex_lt(texts::<4>(keys)[j], texts::<4>(keys)[i])); }
+        }
     }
     assert(kv_restrict(keys, m) =~= m) by {
         assert forall|k: tinystr::TinyAsciiStr<4>| keys.to_set().contains(k) <==> m.contains_key(k) by { assert(keys.to_set().contains(k) <==> keys.contains(k)); }
